@@ -320,7 +320,11 @@ def epair(e):
 
 def h0_user(inst):
     d = inst["d"]
-    return [[epair(inst["E"][i]) if i == j else cz() for j in range(d)] for i in range(d)]
+    h = [[epair(inst["E"][i]) if i == j else cz() for j in range(d)] for i in range(d)]
+    extra = inst.get("h0_extra")
+    if extra:
+        h = [[(h[i][j][0] + extra[i][j][0], h[i][j][1] + extra[i][j][1]) for j in range(d)] for i in range(d)]
+    return h
 
 
 def concrete_hamiltonian(inst):
